@@ -546,6 +546,38 @@ def cover(rnd, nr, nc, per=4):
     return _names(m)
 
 
+def boxed(rnd):
+    """every column boxed, rows whose limits sit exactly at (or within a unit of) what the box allows: the bound-flipping ratio
+    test of the dual simplex has only boxed candidates and flipping them may use up an infeasibility exactly"""
+    m = LP("boxed", rnd.choice([MIN, MAX]))
+    nc = rnd.randint(2, 8)
+    for j in range(nc):
+        lo = F(rnd.randint(-2, 2))
+        m.cols.append(Col(None, F(rnd.randint(-5, 5)), lo, lo + rnd.randint(1, 3)))
+    for i in range(rnd.randint(1, 4)):
+        sub = rnd.sample(m.cols, rnd.randint(1, nc))
+        coef = {c: F(rnd.choice([1, 1, 1, 2, -1, 3])) for c in sub}
+        hi = sum((a * (c.up if a > 0 else c.lo) for c, a in coef.items()), F(0))
+        lw = sum((a * (c.lo if a > 0 else c.up) for c, a in coef.items()), F(0))
+        t = rnd.random()
+        slackk = F(rnd.choice([0, 0, 0, 1, 1, 2]))
+        if t < 0.35:
+            r = Row(None, "G", hi - slackk, 0, coef)
+        elif t < 0.6:
+            r = Row(None, "L", lw + slackk, 0, coef)
+        elif t < 0.9:
+            a_ = hi - slackk - rnd.randint(0, 2)
+            r = Row(None, "R", a_, F(rnd.randint(0, 3)), coef)
+        else:
+            r = Row(None, "E", rnd.choice([hi, lw, hi - 1, lw + 1]), 0, coef)
+        m.rows.append(r)
+    if rnd.random() < 0.3:
+        # a redundant row whose slack gives the ratio test a one-sided candidate in some formulations only
+        c = rnd.choice(m.cols)
+        m.rows.append(Row(None, "L", c.up + 5, 0, {c: F(1)}))
+    return _names(m)
+
+
 def big(rnd):
     """planted-optimal LPs large enough that a solve goes through several refactorizations (eta limit 100) in both phases"""
     if rnd.random() < 0.4:
@@ -568,6 +600,8 @@ def family(rnd, name):
         return planted_infeasible(rnd, rnd.randint(2, 6), rnd.randint(1, 6), extreme=True)
     if name == "big":
         return big(rnd)
+    if name == "boxed":
+        return boxed(rnd)
     if name == "small-rand":
         return small_rand(rnd)
     if name == "small-int":
